@@ -248,15 +248,14 @@ impl<R: Read, TSpec> TagIterator<R, TSpec>
             }
             self.buffer_offset = Some(0);
             self.internal_buffer_position = 0;
-        } else {
-            while self.internal_buffer_position + length > self.buffered_byte_length {
-                self.buffer.copy_within(self.internal_buffer_position..self.buffered_byte_length, 0);
-                self.buffered_byte_length -= self.internal_buffer_position;
-                self.buffer_offset = Some(self.current_offset());
-                self.internal_buffer_position = 0;
-                if !self.private_read(self.buffered_byte_length)? {
-                    return Ok(false);
-                }
+        }
+        while self.internal_buffer_position + length > self.buffered_byte_length {
+            self.buffer.copy_within(self.internal_buffer_position..self.buffered_byte_length, 0);
+            self.buffered_byte_length -= self.internal_buffer_position;
+            self.buffer_offset = Some(self.current_offset());
+            self.internal_buffer_position = 0;
+            if !self.private_read(self.buffered_byte_length)? {
+                return Ok(false);
             }
         }
         Ok(true)
